@@ -112,7 +112,7 @@ ASSUME
   /\ FloatDenote(<<48, 120>>) = None   \* "0x"
   /\ FloatDenote(<<49, 46, 50, 46, 51>>) = None   \* "1.2.3"
   /\ FloatDenote(<<105, 110, 102, 120>>) = None   \* "infx"
-  /\ FloatDenote(<<49, 101, 49, 50, 51, 52, 53, 54, 55>>) = None   \* "1e1234567"
+  /\ FloatDenote(<<49, 101, 49, 50, 51, 52, 53, 54>>) = None   \* "1e123456"
   /\ FloatDenote(<<45, 45, 49>>) = None   \* "--1"
   /\ FloatDenote(<<>>) = None   \* ""
 =============================================================================
